@@ -4,3 +4,8 @@ import AxVerif.Model.Wire
 import AxVerif.Generated.Wire
 import AxVerif.Driver.Wire
 import AxVerif.Thm.C20
+import AxVerif.Model.Wal
+import AxVerif.Generated.Wal
+import AxVerif.Driver.Wal
+import AxVerif.Lemmas.Wal
+import AxVerif.Thm.C17
